@@ -55,9 +55,9 @@ func init() {
 var relMsg = &xw.Format{
 	Name: "relmsg", DecFn: "c18_dec_relmsg",
 	Prep: func(b []byte) func() (xw.Value, int, bool) {
-		t, buf := tubes.VerifPreloadedReliable(b), make([]byte, 1<<17)
+		t, buf := tubes.VerifWirePreloadedReliable(b), make([]byte, 1<<17)
 		return func() (xw.Value, int, bool) {
-			m, left, err := tubes.VerifReliableReadMsgUDPOn(t, buf)
+			m, left, err := tubes.VerifWireReliableReadMsgUDPOn(t, buf)
 			return m, left, err == nil
 		}
 	},
@@ -164,11 +164,11 @@ func decoderInputs(r *hv.Rand, f *xw.Format, gen *xw.Format, nValues, mutPer, nR
 
 // ---------------------------------------------------------------- part B: frames and recvAck
 
-func coqFrame(v tubes.VerifFrame) string {
+func coqFrame(v tubes.VerifWireFrame) string {
 	fl := hv.App("Fl", hv.B(v.REQ), hv.B(v.RESP), hv.B(v.REL), hv.B(v.ACK), hv.B(v.FIN), hv.B(v.RTR))
 	return hv.App("Fr", hv.N(uint64(v.AckNo)), hv.N(uint64(v.FrameNo)), hv.N(uint64(v.DataLength)), fl, hv.N(uint64(v.TubeID)), xw.CoqBytes(v.Data))
 }
-func coqIFrame(v tubes.VerifInitFrame) string {
+func coqIFrame(v tubes.VerifWireInitFrame) string {
 	fl := hv.App("Fl", hv.B(v.REQ), hv.B(v.RESP), hv.B(v.REL), hv.B(v.ACK), hv.B(v.FIN), hv.B(v.RTR))
 	return hv.App("Ifr", hv.N(uint64(v.FrameNo)), hv.N(uint64(v.TubeID)), hv.N(uint64(v.TubeType)), xw.CoqBytes(v.Data), hv.N(uint64(v.DataLength)), fl)
 }
@@ -180,27 +180,27 @@ func exact(b []byte) []byte {
 }
 
 func frameCase(b []byte, class string) {
-	var got tubes.VerifFrame
+	var got tubes.VerifWireFrame
 	var err error
-	p, msg := hv.Catch(func() { got, err = tubes.VerifFromBytes(exact(b)) })
+	p, msg := hv.Catch(func() { got, err = tubes.VerifWireFromBytes(exact(b)) })
 	code, ok, what := xw.OK, true, ""
 	if p {
 		code, ok, what = xw.PANIC, false, fmt.Sprintf("fromBytes panicked on a %d-byte buffer with length field %d: %s", len(b), lenField(b), msg)
 	} else if err != nil {
 		code = xw.ERR
-		got = tubes.VerifFrame{}
+		got = tubes.VerifWireFrame{}
 	}
 	hv.Emit(hv.Case{Fn: "c18_frame_from_bytes", Coq: hv.Tuple(xw.CoqBytes(b), hv.Ni(code), coqFrame(got)), Class: "frame/" + class,
 		Desc: fmt.Sprintf("fromBytes len=%d dl=%d #%s", len(b), lenField(b), ident(b)), Spec: ok, Sig: "C11:frombytes-panics", What: what, NT: len(b) >= 4,
 		Replay: map[string]interface{}{"op": "tubes.fromBytes", "len": len(b), "length_field": lenField(b), "hex_prefix": hex.EncodeToString(b[:min(len(b), 64)])}})
-	var ig tubes.VerifInitFrame
-	p, msg = hv.Catch(func() { ig, err = tubes.VerifReframe(exact(b)) })
+	var ig tubes.VerifWireInitFrame
+	p, msg = hv.Catch(func() { ig, err = tubes.VerifWireReframe(exact(b)) })
 	code, ok, what = xw.OK, true, ""
 	if p {
 		code, ok, what = xw.PANIC, false, fmt.Sprintf("fromInitiateBytes(frame.toBytes()) panicked: %s", msg)
 	} else if err != nil {
 		code = xw.ERR
-		ig = tubes.VerifInitFrame{}
+		ig = tubes.VerifWireInitFrame{}
 	}
 	hv.Emit(hv.Case{Fn: "c18_reframe", Coq: hv.Tuple(xw.CoqBytes(b), hv.Ni(code), coqIFrame(ig)), Class: "reframe/" + class,
 		Desc: fmt.Sprintf("reframe len=%d dl=%d #%s", len(b), lenField(b), ident(b)), Spec: ok, Sig: "C11:reframe-panics", What: what, NT: len(b) >= 4,
@@ -275,7 +275,7 @@ func partB(r *hv.Rand) {
 		var newAck uint64
 		var remaining int
 		var err error
-		p, msg := hv.Catch(func() { newAck, remaining, _, err = tubes.VerifRecvAck(ackNo, dls, window, dup, ack) })
+		p, msg := hv.Catch(func() { newAck, remaining, _, err = tubes.VerifWireRecvAck(ackNo, dls, window, dup, ack) })
 		code, ok, what := xw.OK, true, ""
 		if p {
 			code, ok = xw.PANIC, false
